@@ -298,10 +298,81 @@ def interface_fragment_keys(case, queries: str) -> Set[str]:
     return out
 
 
+def merged_composite_keys(queries: str) -> Set[str]:
+    """Response keys under which one selection scope (after flattening inline fragments and fragment spreads) selects a field with sub-selections more than once."""
+    from graphql import FieldNode, FragmentDefinitionNode, FragmentSpreadNode, parse
+    out: Set[str] = set()
+    try:
+        doc = parse(queries)
+    except Exception:  # noqa: BLE001
+        return out
+    frags = {d.name.value: d for d in doc.definitions if isinstance(d, FragmentDefinitionNode)}
+
+    def flat(selset, stack=()):
+        for sel in selset.selections:
+            if isinstance(sel, FieldNode):
+                yield sel
+            elif isinstance(sel, FragmentSpreadNode):
+                if sel.name.value in frags and sel.name.value not in stack:
+                    yield from flat(frags[sel.name.value].selection_set, stack + (sel.name.value,))
+            else:
+                yield from flat(sel.selection_set, stack)
+
+    def scope(selset, depth=0):
+        by_key: Dict[str, list] = {}
+        for f in flat(selset):
+            if f.selection_set is not None:
+                by_key.setdefault(f.alias.value if f.alias else f.name.value, []).append(f)
+        for k, fs in by_key.items():
+            if len(fs) > 1:
+                out.add(k)
+            if depth < 12:
+                for f in fs:
+                    scope(f.selection_set, depth + 1)
+
+    for d in doc.definitions:
+        scope(d.selection_set)
+    return out
+
+
 def relabel_string_literal_findings(case, queries: str, violations: List[Violation]) -> None:
     """Listed findings about GraphQL string literals are keyed by the literal class the document really contains."""
     import re
     dirty = set(case.get("dirty", []))
+    if "sel.field_merge" in dirty:
+        # listed: a composite field selected twice under one response key. The class for that key is generated from the first selection alone, so
+        # everything the response holds BELOW such a key (and nothing else) is governed by the listed mechanism.
+        merged = merged_composite_keys(queries)
+
+        def keys_of(path_text: str) -> List[str]:
+            return re.findall(r"'([^']+)'", path_text)
+
+        def below_merged(keys: List[str], own: bool = False) -> bool:
+            return any(k in merged for k in (keys if own else keys[:-1]))
+        dropped_ops: Set[str] = set()
+        c01_order = {"key-exposed": 0, "typename-field": 0, "typename-literal": 0, "accepted": 0}
+        for v in sorted(violations, key=lambda v_: c01_order.get(v_.clause, 1)):
+            if not merged:
+                break
+            op = v.detail.split(" [", 1)[0]
+            if v.prop == "C01" and v.clause in ("key-exposed", "typename-field", "typename-literal", "auto-typename", "value-equal", "object-shape") and v.mech == "c01:" + v.clause:
+                mk = re.search(r"\]: \((.*?)\): ", v.detail)
+                if mk and below_merged(keys_of(mk.group(1)), own=True):
+                    v.mech = "composite-field-selected-twice-under-one-key"
+                    dropped_ops.add(op)
+            elif v.prop == "C01" and v.clause == "accepted" and v.mech == "c01:accepted:ValidationError":
+                # every error location pydantic lists must lie below a merged key
+                locs = [l.strip() for l in v.detail.split("\nresponse:")[0].splitlines()[1:] if l and not l.startswith(" ") and "[type=" not in l and "validation error" not in l]
+                locs = [l for l in locs if re.fullmatch(r"[\w.]+", l)]
+                if locs and all(below_merged([t for t in l.split(".") if not t.isdigit()], own=True) for l in locs):
+                    v.mech = "composite-field-selected-twice-under-one-key"
+                    dropped_ops.add(op)
+            elif v.prop == "C01" and v.clause == "round-trip" and v.mech == "c01:round-trip" and op in dropped_ops:
+                v.mech = "composite-field-selected-twice-under-one-key"
+            elif v.prop == "C05" and v.mech.startswith("c05:accepted:"):
+                m_ = re.search(r" at \((.*?)\) was accepted", v.detail)
+                if m_ and below_merged(keys_of(m_.group(1))):
+                    v.mech = "composite-field-selected-twice-lax"
     has_single = bool(re.search(r'"[^"\n]*\'[^"\n]*"', queries))
     has_block = '"""' in queries
     has_escape = bool(re.search(r'"[^"\n]*\\[nt][^"\n]*"', queries))
@@ -802,6 +873,11 @@ def run_shared(prop: str, tier: str, seed: int, n_cases: int, rule: str, floors:
     r.assumptions = ["graphql-core (parser, validator, executor, coercion) is the model of a spec-conformant server",
                      "httpx.MockTransport is a faithful transport", "pydantic decides what an annotation accepts"]
     r.floors = floors
+    if os.environ.get("VERIF_DIRTY") is not None:
+        # experiments only: VERIF_DIRTY="a,b;c" runs the check with these dirty sets instead of the registered rotation (VERIF_N: number of cases)
+        dirty_sets = [[x for x in part.split(",") if x] for part in os.environ["VERIF_DIRTY"].split(";")]
+        n_cases = int(os.environ.get("VERIF_N", n_cases))
+        r.floors = floors = {}
     cases = []
     for i in range(n_cases):
         kw = dict(extra_case_kw or {})
